@@ -2,7 +2,7 @@
    correspondence driver feeds them (strings, association lists, bit patterns). *)
 From Coq Require Import String Ascii List Bool ZArith.
 From SvgdxModel Require Import Base.Str Base.Res Num.F32 Num.NumOps Gen.Tables Model.Types Model.Geom
-  Model.Position Model.Scan Model.Element Model.Text.
+  Model.Position Model.Scan Model.Element Model.Text Model.Connector.
 Import ListNotations.
 Open Scope string_scope.
 
@@ -34,9 +34,13 @@ Definition build_ctx (others : list (string * attrs)) : emap FN :=
                let p := match el_bbox FN strp e with Ok (Some _) => Some e | _ => cprev FN c end in
                {| cmap := m; cprev := p |}) others {| cmap := []; cprev := None |}.
 
+(* f32::MAX, the initial value of the minimum searches in connector.rs *)
+Definition f32_max : f32 := of_bits 2139095039.
+
 Definition run_resolve (name : string) (a : attrs) (others : list (string * attrs)) : res attrs :=
   let c := build_ctx others in
   do e <- f_resolve c (new_el FN name a);
+  do e <- transmute_conn FN strp fstr f32_max c e;
   do e <- transmute_dxy FN strp fstr e;
   do e <- f_resolve c e;
   do _ <- get_element_bbox FN strp c e;
@@ -50,3 +54,16 @@ Definition run_textattr (name : string) (a : attrs) : res (attrs * list (string 
   do '(e, ts) <- process_text_attr FN strp fstr (new_el FN name a);
   Ok (flat_el (eattrs FN e) (ecls FN e), map (fun t => let '(n, ta, tc, content) := t in (n, flat_el ta tc, content)) ts).
 Definition run_textstring (s : string) : string := text_string s.
+(* the same sequence, returning the element name as well (a connector is replaced by a line or a
+   polyline) *)
+Definition run_connect (name : string) (a : attrs) (others : list (string * attrs)) : res (string * attrs) :=
+  let c := build_ctx others in
+  do e <- f_resolve c (new_el FN name a);
+  do e <- transmute_conn FN strp fstr f32_max c e;
+  do e <- transmute_dxy FN strp fstr e;
+  do e <- f_resolve c e;
+  do _ <- get_element_bbox FN strp c e;
+  Ok (ename FN e,
+      match ecls FN e with
+      | [] => eattrs FN e
+      | cl => (eattrs FN e ++ [("class", concat_sep " " cl)])%list end).
